@@ -460,4 +460,17 @@ pub mod verif_hooks {
             count: AtomicUsize::new(count),
         }
     }
+    /// The same for one worker-local queue plus one array already in the global (flushed) list.
+    pub fn pool_with_local_and_global_queue<B: Region>(
+        local: Queue<B>,
+        global: Queue<B>,
+    ) -> BlockPool<B> {
+        let count = local.len() + global.len();
+        BlockPool {
+            head_global_freed_blocks: RwLock::new(None),
+            global_freed_blocks: RwLock::new(vec![global.0]),
+            worker_local_freed_blocks: vec![local.0],
+            count: AtomicUsize::new(count),
+        }
+    }
 }
